@@ -9,11 +9,17 @@ import re
 import vlib
 
 THEOREMS = [
-    "kinv_init", "kinv_pin", "kinv_unpin", "kinv_reserve", "kinv_commitA", "kinv_commitAPanic",
-    "kinv_commitB", "kinv_find", "kinv_unlink", "kinv_abandon", "kinv_allocDv",
-    "inv_step", "inv_reachable",
-    "no_missing_file", "unlink_only_unpinned", "reader_sees_start_snapshot",
-    "vacuum_rule_tight", "vacuum_rule_off_by_one_unsafe", "assert_epoch_unreachable",
+    # kernel invariant: every kernel operation preserves it (Lemmas/StoreConc.lean)
+    "SC.kinv_init", "SC.kinv_pin", "SC.kinv_unpin", "SC.kinv_reserve", "SC.kinv_commitA",
+    "SC.kinv_commitAPanic", "SC.kinv_commitB", "SC.kinv_find", "SC.kinv_unlink", "SC.kinv_abandon",
+    "SC.kinv_allocDv",
+    # every atomic segment is one kernel operation; theorem I (all schedules)
+    "SC.astep_kstep", "SC.inv_init", "SC.inv_step", "SC.inv_reachable", "SC.inv_reachable_init",
+    # the property's guarantees
+    "SC.no_missing_file", "SC.fetch_never_missing", "SC.unlink_only_unpinned", "SC.kstep_stable",
+    "SC.reader_sees_start_snapshot", "SC.assert_epoch_unreachable",
+    # non-vacuity / tightness of the vacuum rule
+    "SC.vacuum_rule_tight", "SC.vacuum_rule_off_by_one_unsafe",
 ]
 
 TRUSTED = [
